@@ -3,7 +3,7 @@
    copying) with what the implementation produced.  Until the first quarter turn the comparison
    is equality (dyadic inputs); afterwards corners are compared within 1e-9 of the coordinate
    scale (the implementation evaluates cos/sin(k*pi/2) in floating point). *)
-From DF Require Import Prelude Constants_gen Region Mesh Subregions History.
+From DF Require Export Prelude Constants_gen Region Mesh Subregions History.
 Open Scope Q_scope.
 
 Definition c13_tol : Q := 1 # 1000000000.
